@@ -716,6 +716,12 @@ class Function(dd._abc.Operator):
         self.node = node
         self.manager.incref(node)
 
+    def __copy__(
+            self
+            ) -> 'Function':
+        """Return new reference to the same node."""
+        return Function(self.node, self.bdd)
+
     def __hash__(
             self
             ) -> int:
